@@ -41,7 +41,16 @@ RULE = ("ensembles (2..5 states, dimension 2..4, real/complex integer amplitudes
         "and the repaired optimum of the reference solver (non-trivial = point certified feasible by the verified checker) -- and at negative controls derived from them "
         "(each violating one constraint of the model by >= 1e-2); stream `front`: 1-D / column / row / square / mixed / mismatching / non-square argument lists x "
         "strategy, primal_dual given or omitted x probs given or None against the Lean mirror sdFront of the argument check and dispatch; stream `post`: "
-        "is_distinguishable with state_distinguishability replaced by a recorder returning chosen values around the np.isclose threshold against sdDistTest")
+        "is_distinguishable with state_distinguishability replaced by a recorder returning chosen values around the np.isclose threshold against sdDistTest"
+        " || call forms: every value call hands the options over in a form drawn from the call-form stream (3 in 10 all keywords; otherwise all positional in the "
+        "documented order (vectors, probs, strategy, solver, primal_dual), positional with trailing defaults omitted -- state_distinguishability(states, probs, 'unambiguous') --, "
+        "strategy (and solver) positional + the rest by keyword, keywords in reversed order with defaults omitted); all forms bind the same options "
+        "(sd_bind_positional_eq_keyword) so the same certified interval applies; stream `front` draws 0..3 positional options, keyword order, a pass-through solver option and "
+        "ill-formed calls (an option twice, a fourth positional value: TypeError) against sdFrontCall, and compares the solver handed to picos when one was given; "
+        "is_distinguishable(states, probs) and is_distinguishable(states=, probs=) alternate"
+        " || family orth+null (24 quick / 160): 2..d mutually orthogonal states (Cayley-unitary columns or basis vectors) with dyadic priors + one or two states overlapping them "
+        "(squared overlap in [0.1, 0.9] with an occurring state) with prior exactly 0 (4 in 6), 2^-33 or 1e-10, inserted at seeded list positions, as 1-D / column vectors / density "
+        "matrices: min-error primal and dual must return 1 (certified interval; minErr_support_orthogonal_eq_one, minErr_ge_orthogonal_part) and is_distinguishable must answer True")
 ASSUMPTIONS = [
     "toqito computes with the float inputs it is given; the instance certified is their exact dyadic image (difference <= 1e-15 relative)",
     "tolerance 2e-5 on CVXOPT-solved values (declared in DESIGN.md 4.4), 1e-3 for SCS",
@@ -82,6 +91,8 @@ def gen_instance(rng, quick, family=None):
         else:
             k = int(rng.integers(2, d + 1))
             kind = "orthogonal"
+    if family == "orth+null":
+        return gen_orth_null(rng)
     vecs = []
     if kind == "orthogonal" and k <= d:
         U = qgen.cayley_unitary(rng, d, cplx)
@@ -124,6 +135,52 @@ def gen_instance(rng, quick, family=None):
         vecs = [np.real(v) for v in vecs]
     return {"d": d, "k": k, "cplx": cplx, "form": form, "kind": kind, "states": [np.asarray(s).tolist() if False else s for s in states],
             "vecs": (None if form == "dm_mixed" else vecs), "probs": probs, "probs_given": bool(rng.integers(4) > 0) or len(set(probs)) > 1}
+
+
+NULL_PRIORS = (0.0, 0.0, 0.0, 0.0, 2.0 ** -33, 1e-10)
+
+
+def gen_orth_null(rng):
+    """family "orth+null": the states that occur (prior > 0) are mutually orthogonal, one or two further listed states overlap them and
+    carry the prior 0 (or 2^-33 / 1e-10), at seeded places of the list.  The minimum-error value of (states, probs) is 1
+    (minErr_support_orthogonal_eq_one; >= 1 - 2.4e-10 for the tiny priors: minErr_ge_orthogonal_part) and is_distinguishable(states, probs) must
+    answer True, although the same states with the uniform prior are not perfectly distinguishable (the overlapping state has squared
+    overlap >= 1/10 with an occurring one, so that value is below 1 by far more than np.isclose allows)."""
+    d = int(rng.choice([2, 2, 3, 3, 4]))
+    cplx = bool(rng.integers(2))
+    k0 = int(rng.integers(2, d + 1))
+    if rng.integers(3) == 0:
+        cols = [int(c) for c in rng.permutation(d)[:k0]]
+        orth = [np.eye(d, dtype=complex)[:, c] for c in cols]                  # computational basis vectors
+    else:
+        U = qgen.cayley_unitary(rng, d, cplx)
+        orth = [U[:, i] for i in range(k0)]
+    n_null = 2 if (k0 + 2 <= 5 and rng.integers(4) == 0) else 1
+    nulls = []
+    while len(nulls) < n_null:
+        v = qgen.unit(qgen.int_vector(rng, d, cplx))
+        ov = [abs(np.vdot(u, v)) ** 2 for u in orth]
+        if 0.1 <= max(ov) <= 0.9:
+            nulls.append(v)
+    eps = float(NULL_PRIORS[int(rng.integers(len(NULL_PRIORS)))])
+    pos_p = qgen.dyadic_probs(rng, k0)
+    vecs = [(u, p * (1.0 - n_null * eps)) for u, p in zip(orth, pos_p)]
+    for v in nulls:
+        vecs.insert(int(rng.integers(len(vecs) + 1)), (v, eps))
+    probs = [float(p) for _, p in vecs]
+    vecs = [v for v, _ in vecs]
+    form = str(rng.choice(["vec1d", "col", "dm"]))
+    if form == "dm":
+        states = [np.outer(v, v.conj()) for v in vecs]
+    elif form == "col":
+        states = [v.reshape(-1, 1) for v in vecs]
+    else:
+        states = list(vecs)
+    if not cplx:
+        states = [np.real(x) for x in states]
+        vecs = [np.real(v) for v in vecs]
+    return {"d": d, "k": len(vecs), "cplx": cplx, "form": form, "kind": "orth+null", "states": states, "vecs": vecs, "probs": probs, "probs_given": True,
+            "null_prior": eps}
 
 
 # ------------------------------------------------------------------------------------------------
@@ -285,6 +342,39 @@ def certify_unamb(drv, V: DM, probs, q_f, Z_f):
     return lo, hi, why
 
 
+# call forms of state_distinguishability(vectors, probs, strategy, solver, primal_dual): the options by keyword (as toqito's own callers
+# write them), by position in the order of the public signature, or mixed -- Python's binding rule is modelled by sdBind
+# (lean/Toq/Model/DiscrimCall.lean), sd_bind_positional_eq_keyword: every well-formed form binds the same three options
+CALL_FORMS = ("kw", "pos", "pos-min", "pos1", "pos2", "kw-min")
+_OPT_NAMES = ("strategy", "solver", "primal_dual")
+_OPT_DEFAULTS = ("min_error", "cvxopt", "dual")
+
+
+def call_form_args(form, vectors, probs, strategy, solver, pd):
+    """(positional arguments, keyword arguments) of the call in the given form; every form binds vectors, probs, strategy, solver, primal_dual
+    to the given values under the documented signature"""
+    opts = (strategy, solver, pd)
+    if form == "pos":
+        return (vectors, probs) + opts, {}
+    if form == "pos-min":          # positional, trailing options that equal the documented default omitted: f(states, probs, "unambiguous")
+        n = max([i + 1 for i in range(3) if opts[i] != _OPT_DEFAULTS[i]] or [0])
+        return (vectors, probs) + opts[:n], {}
+    if form == "pos1":
+        return (vectors, probs, strategy), {"solver": solver, "primal_dual": pd}
+    if form == "pos2":
+        return (vectors, probs, strategy, solver), {"primal_dual": pd}
+    if form == "kw-min":           # keywords, in another order, defaults omitted
+        kw = {n: v for n, v, dflt in reversed(list(zip(_OPT_NAMES, opts, _OPT_DEFAULTS))) if v != dflt}
+        return (vectors,), dict(kw, probs=probs)
+    return (), dict(vectors=vectors, probs=probs, strategy=strategy, solver=solver, primal_dual=pd)
+
+
+def call_form_model(form, strategy, solver, pd):
+    """(pos, kw) of the same call for the Lean binder sd_front_call (options after vectors, probs)"""
+    a, kw = call_form_args(form, None, None, strategy, solver, pd)
+    return list(a[2:]), [[n, v] for n, v in kw.items() if n in _OPT_NAMES]
+
+
 def _meas_values(meas):
     out = []
     for m in meas:
@@ -336,22 +426,29 @@ def work(task, res: Result):
             ulo = uhi = None
     maxp = max(probs)
     got = {}  # (strategy, primal_dual, solver) -> value returned by toqito (calls that returned and passed the interval check)
-    for (strategy, pd, solver) in calls:
+    for call in calls:
+        strategy, pd, solver = call[:3]
+        cform = call[3] if len(call) > 3 else "kw"
         if strategy == "unambiguous" and inst["form"] not in ("vec1d", "col"):
             continue  # the Gram-matrix program is defined for state vectors only
-        desc = dict(base, strategy=strategy, primal_dual=pd, solver=solver, probs_given=inst["probs_given"])
+        desc = dict(base, strategy=strategy, primal_dual=pd, solver=solver, probs_given=inst["probs_given"], call_form=cform)
         # the same values in a presentation drawn for this call (layout / real and integer dtypes, independently per list element)
         prng = call_rng(inst.get("pres"), strategy, pd, solver)
         args = dict(vectors=present_list(prng, states, force_real=inst.get("real_idx", ())), probs=(list(probs) if inst["probs_given"] else None),
                     strategy=strategy, solver=solver, primal_dual=pd)
-        guard = Pure(**args)
+        # the call in its form: options by keyword / by position in the documented order / mixed (all bind the same values: sd_bind_positional_eq_keyword)
+        c_pos, c_kw = call_form_args(cform, args["vectors"], args["probs"], strategy, solver, pd)
+        desc["call"] = ("state_distinguishability(" + ", ".join(["vectors", "probs"][:len(c_pos)] + [repr(x) for x in c_pos[2:]]
+                                                                  + [f"{n}={'probs' if n == 'probs' else 'vectors' if n == 'vectors' else repr(v)}" for n, v in c_kw.items()]) + ")")
+        res.count(f"call-form/{cform}")
+        guard = Pure(*c_pos, **c_kw)
         try:
-            val, meas = _limited(state_distinguishability, **args)
+            val, meas = _limited(state_distinguishability, *c_pos, **c_kw)
             why_mod = guard.modified()
             val2 = None
             if why_mod is None and prng is not None and int(prng.integers(4)) == 0:
                 try:
-                    val2 = float(_limited(state_distinguishability, **args)[0])   # the SAME objects again
+                    val2 = float(_limited(state_distinguishability, *c_pos, **c_kw)[0])   # the SAME objects again
                     why_mod = guard.modified()
                 except (ArithmeticError, ZeroDivisionError, CallTimeout):
                     res.count("repeat-call/solver-numerical-failure")
@@ -367,7 +464,7 @@ def work(task, res: Result):
             continue
         except Exception as e:
             res.case(desc, True, f"{strategy}/{pd}/{solver}/raise")
-            res.violation(f"state_distinguishability({strategy},{pd}) raises {type(e).__name__}: {str(e)[:120]} on a valid {'complex' if inst['cplx'] else 'real'} ensemble",
+            res.violation(f"{desc['call'] if cform != 'kw' else f'state_distinguishability({strategy},{pd})'} raises {type(e).__name__}: {str(e)[:120]} on a valid {'complex' if inst['cplx'] else 'real'} ensemble",
                           {"function": "state_distinguishability", "args": desc, "exception": f"{type(e).__name__}: {str(e)[:300]}", "cplx": inst["cplx"],
                            "presentation": describe(args["vectors"])})
             continue
@@ -393,7 +490,8 @@ def work(task, res: Result):
             got[(strategy, pd, solver)] = float(val)
             continue
         if not (L - tau <= float(val) <= H + tau):
-            res.violation(f"state_distinguishability({strategy},{pd},{solver}) = {float(val):.8f} outside the certified optimum [{L:.8f}, {H:.8f}]",
+            res.violation(f"{desc['call'] if cform != 'kw' else f'state_distinguishability({strategy},{pd},{solver})'} = {float(val):.8f} outside the certified optimum [{L:.8f}, {H:.8f}]"
+                          + ("" if cform == "kw" else f" of the {strategy} program (documented order of the options: strategy, solver, primal_dual)"),
                           {"function": "state_distinguishability", "args": desc, "impl": float(val), "certified": [L, H], "tau": tau, "theorem": thm, "cplx": inst["cplx"],
                            "presentation": describe(args["vectors"])})
             continue
@@ -420,7 +518,13 @@ def work(task, res: Result):
         d_probs = list(probs) if inst["probs_given"] else None
         d_guard = Pure(d_states, d_probs)
         try:
-            ans = bool(_limited(is_distinguishable, d_states, d_probs))
+            f_rng = call_rng(inst.get("pres"), "isdist-form")
+            if f_rng is not None and int(f_rng.integers(2)):
+                ans = bool(_limited(is_distinguishable, states=d_states, probs=d_probs))
+                res.count("is_distinguishable/call-form/kw")
+            else:
+                ans = bool(_limited(is_distinguishable, d_states, d_probs))
+                res.count("is_distinguishable/call-form/pos")
         except (ArithmeticError, ZeroDivisionError, CallTimeout):
             ans = None
             res.count("is_distinguishable/solver-numerical-failure")
@@ -436,12 +540,16 @@ def work(task, res: Result):
             sep = hi is not None and lo is not None and hi - lo <= WIDTH_OK and hi < 1 - 1e-3
             one = abs(v_dual - 1.0) <= 5e-6
             res.case(ddesc, sep or one, f"is_distinguishable/{'separated' if sep else 'one' if one else 'undecided'}/{ans}")
+            if inst["kind"] == "orth+null":
+                res.count(f"is_distinguishable/orth+null/prior={inst.get('null_prior', 0.0)!r}/{'one' if one else 'not-one'}/{ans}")
             if sep and ans:
                 res.violation(f"is_distinguishable answers True although no measurement succeeds with probability above the certified {hi:.8f}",
                               {"function": "is_distinguishable", "args": ddesc, "impl": True, "certified": [lo, hi], "theorem": "checkMinErrDual_sound / sd_dist_test_false_of_dual", "cplx": inst["cplx"]})
             if one and not ans:
-                res.violation(f"is_distinguishable answers False although state_distinguishability returns {v_dual:.10f} for the same ensemble",
-                              {"function": "is_distinguishable", "args": ddesc, "impl": False, "value": v_dual, "theorem": "sd_dist_test_true_of_near_one", "cplx": inst["cplx"]})
+                res.violation(f"is_distinguishable answers False although state_distinguishability returns {v_dual:.10f} for the same ensemble"
+                              + (f" (the states with prior > {inst.get('null_prior', 0.0)!r} are mutually orthogonal: the optimum is 1)" if inst["kind"] == "orth+null" else ""),
+                              {"function": "is_distinguishable", "args": ddesc, "impl": False, "value": v_dual, "certified": [lo, hi],
+                               "theorem": "sd_dist_test_true_of_near_one" + (" / minErr_support_orthogonal_eq_one" if inst["kind"] == "orth+null" else ""), "cplx": inst["cplx"]})
     # ---- closed forms and inequalities on the certified interval (min-error)
     if lo is not None and hi is not None and hi - lo <= WIDTH_OK:
         tau = 2e-5
@@ -454,6 +562,11 @@ def work(task, res: Result):
             res.count("closed-form/orthogonal")
             if hi < 1 - 1e-6:
                 res.violation("certified optimum below 1 for mutually orthogonal states (harness error)", {"function": "orthogonal", "args": base, "certified": [lo, hi]})
+        if inst["kind"] == "orth+null":
+            res.count("closed-form/orth+null")
+            if hi < 1 - 1e-6:
+                res.violation("certified optimum below 1 although the states with non-negligible prior are mutually orthogonal (harness error)",
+                              {"function": "orth+null", "args": base, "certified": [lo, hi], "theorem": "minErr_support_orthogonal_eq_one / minErr_ge_orthogonal_part"})
         res.count("closed-form/max-prior")
         if hi < maxp - 1e-9:
             res.violation("certified optimum below the largest prior (harness error)", {"function": "maxprior", "args": base, "certified": [lo, hi]})
@@ -532,6 +645,10 @@ def work(task, res: Result):
                 res.count("impl-closed-form/orthogonal")
                 if abs(v - 1.0) > tau:
                     bad.append(("1 (mutually orthogonal states)", 1.0, "minErr_orthogonal_eq_one"))
+            if inst["kind"] == "orth+null":
+                res.count("impl-closed-form/orth+null")
+                if abs(v - 1.0) > tau:
+                    bad.append(("1 (the states with non-zero prior are mutually orthogonal)", 1.0, "minErr_support_orthogonal_eq_one / minErr_ge_orthogonal_part"))
             res.count("impl-closed-form/range")
             if v < maxp - tau:
                 bad.append((">= largest prior", maxp, "minErr_ge_prior"))
@@ -1019,35 +1136,52 @@ def _shape_json(a):
     return [int(x) for x in a.shape]
 
 
+def _front_task(task):
+    """(arrs, probs, pos, kw): the older task form (arrs, probs, strategy, primal_dual) = options by keyword, None = omitted"""
+    arrs, probs, x, y = task
+    if isinstance(x, list) and isinstance(y, dict):
+        return arrs, probs, list(x), dict(y)
+    kw = {}
+    if x is not None:
+        kw["strategy"] = x
+    if y is not None:
+        kw["primal_dual"] = y
+    return arrs, probs, [], kw
+
+
 def work_front(task, res: Result):
-    """which program is built for which arguments (no solve): accepted / ValueError, number of states, dimension, program chosen by `strategy` /
-    `primal_dual` including the omitted-argument defaults, and the default solver"""
+    """which program is built for which arguments (no solve): accepted / ValueError / TypeError, number of states, dimension, program chosen by
+    `strategy` / `primal_dual`, solver handed to picos -- for options given by keyword, by position in the documented order (strategy, solver,
+    primal_dual after vectors, probs) or mixed, including the omitted-argument defaults; Lean: sdFrontCall = sdBind (Python's binding rule), then sdFront"""
     from toqito.state_opt import state_distinguishability
     warnings.filterwarnings("ignore")
-    arrs, probs, strategy, pd = task
+    arrs, probs, pos, kw = _front_task(task)
     drv = worker_driver()
-    m = drv.ask("sd_front", {"shapes": [_shape_json(a) for a in arrs], "p": (None if probs is None else [frac_json(Fraction(float(p))) for p in probs]),
-                             "strategy": strategy, "primal_dual": pd})
-    kw = {}
-    if strategy is not None:
-        kw["strategy"] = strategy
-    if pd is not None:
-        kw["primal_dual"] = pd
+    m = drv.ask("sd_front_call", {"shapes": [_shape_json(a) for a in arrs], "p": (None if probs is None else [frac_json(Fraction(float(p))) for p in probs]),
+                                  "pos": list(pos), "kw": [[n, str(v)] for n, v in kw.items()]})
     raised = None
     got = []
     try:
-        got = _capture(lambda: state_distinguishability([np.array(a) for a in arrs], (None if probs is None else list(probs)), **kw))
+        got = _capture(lambda: state_distinguishability([np.array(a) for a in arrs], (None if probs is None else list(probs)), *pos, **kw))
     except Exception as e:
         raised = e
-    desc = {"fn": "front", "shapes": [_shape_json(a) for a in arrs], "probs": probs, "strategy": strategy, "primal_dual": pd}
+    desc = {"fn": "front", "shapes": [_shape_json(a) for a in arrs], "probs": probs, "pos": list(pos), "kw": dict(kw)}
+    call = "state_distinguishability(vectors, probs" + "".join(f", {v!r}" for v in pos) + "".join(f", {n}={v!r}" for n, v in kw.items()) + ")"
     if "reject" in m:
-        res.case(desc, True, "front/rejected")
-        if not isinstance(raised, ValueError):
-            raise CorrespondenceBroken(f"state_distinguishability on arrays of shapes {desc['shapes']}: the model raises ValueError, the code {'built a program' if raised is None else 'raises ' + type(raised).__name__}")
+        res.case(desc, True, f"front/rejected/{m['reject']}")
+        want = TypeError if m["reject"] == "TypeError" else ValueError
+        if not isinstance(raised, want):
+            raise CorrespondenceBroken(f"{call} on arrays of shapes {desc['shapes']}: the model raises {m['reject']}, the code {'built a program' if raised is None else 'raises ' + type(raised).__name__}")
         return
-    res.case(desc, True, f"front/{m['form']}/{'default' if strategy is None else 'given'}-strategy/{'default' if pd is None else 'given'}-form/{'no' if probs is None else 'with'}-probs")
+    n_kw = sum(1 for n in kw if n in _OPT_NAMES)
+    res.case(desc, True, f"front/{m['form']}/{len(pos)}-positional/{n_kw}-keyword/{'no' if probs is None else 'with'}-probs")
+    if isinstance(raised, TypeError) and pos:
+        # a well-formed positional call in the documented order is refused
+        res.violation(f"{call} raises TypeError: {str(raised)[:120]}; the documented signature (vectors, probs, strategy, solver, primal_dual) accepts it",
+                      {"function": "state_distinguishability", "args": desc, "impl": repr(raised)[:200], "model": m["form"], "check": "front-binding", "theorem": "sd_bind_documented_order"})
+        return
     if raised is not None or len(got) != 1:
-        raise CorrespondenceBroken(f"state_distinguishability on arrays of shapes {desc['shapes']} ({kw}): the model builds the program {m['form']}, the code "
+        raise CorrespondenceBroken(f"{call} on arrays of shapes {desc['shapes']}: the model builds the program {m['form']}, the code "
                                    + (f"raises {type(raised).__name__}: {str(raised)[:120]}" if raised is not None else f"hands {len(got)} problems to the solver"))
     P, skw = got[0]
     names = sorted(P.variables.keys())
@@ -1056,13 +1190,24 @@ def work_front(task, res: Result):
     n_c = {"me_primal": len(names), "me_dual": len(P.constraints), "ua_primal": shp[0], "ua_dual": shp[0]}.get(form, -1)
     dim_c = shp[0] if form in ("me_primal", "me_dual") else None
     if form != m["form"]:
-        res.violation(f"state_distinguishability(strategy={strategy!r}, primal_dual={pd!r}) builds the program {form}, the documented dispatch (and the model) gives {m['form']}",
-                      {"function": "state_distinguishability", "args": desc, "impl": form, "model": m["form"], "check": "front-dispatch", "theorem": "sd_dispatch"})
+        res.violation(f"{call} builds the program {form}, the documented dispatch (and the model) gives {m['form']} "
+                      f"(strategy={m['strategy']!r}, primal_dual={m['primal_dual']!r})",
+                      {"function": "state_distinguishability", "args": desc, "impl": form, "model": m["form"], "check": "front-dispatch",
+                       "theorem": "sd_dispatch / sd_bind_positional_eq_keyword / sd_call_dispatch_positional"})
         return
     if n_c != m["n"] or (dim_c is not None and dim_c != m["dim"]):
         raise CorrespondenceBroken(f"state_distinguishability on shapes {desc['shapes']}: program for {n_c} states in dimension {dim_c}, the model: {m['n']} states in dimension {m['dim']}")
+    solver_given = len(pos) >= 2 or "solver" in kw
     if skw.get("solver") != m["solver"]:
-        res.count("front/other-default-solver")
+        if solver_given:
+            res.violation(f"{call} hands solver={skw.get('solver')!r} to picos, the caller asked for {m['solver']!r}",
+                          {"function": "state_distinguishability", "args": desc, "impl": skw.get("solver"), "model": m["solver"], "check": "front-solver",
+                           "theorem": "sd_bind_positional_eq_keyword"})
+        else:
+            res.count("front/other-default-solver")
+    extra = {n: v for n, v in kw.items() if n not in _OPT_NAMES}
+    if any(skw.get(n) != v for n, v in extra.items()):
+        raise CorrespondenceBroken(f"{call}: solver options {extra} do not reach picos' solve ({skw})")
 
 
 # ------------------------------------------------------------------------------------------------
@@ -1148,14 +1293,24 @@ def run(ctx, model_ok=True):
     ctx.extra["solvers"] = solvers
     tasks = []
     prs = rng.spawn(1)[0]   # presentation stream: a child of the seeded generator (spawning does not consume the parent's draws)
+    cfs = rng.spawn(1)[0]   # call-form stream (how the options are handed over: keyword / positional / mixed), another child generator
+
+    def cform():
+        return "kw" if int(cfs.integers(10)) < 3 else CALL_FORMS[1 + int(cfs.integers(len(CALL_FORMS) - 1))]
+
     for i in range(n_inst):
         inst = vary_ensemble(prs, gen_instance(rng, quick))
-        calls = [(st, pd, sv) for sv in solvers for (st, pd) in (("min_error", "primal"), ("min_error", "dual"), ("unambiguous", "primal"), ("unambiguous", "dual"))]
+        calls = [(st, pd, sv, cform()) for sv in solvers for (st, pd) in (("min_error", "primal"), ("min_error", "dual"), ("unambiguous", "primal"), ("unambiguous", "dual"))]
         tasks.append((inst, calls))
     # closed-form stream: the families with a proved closed form, through the same worker
     for i in range(24 if quick else 180):
         inst = vary_ensemble(prs, gen_instance(rng, quick, family=["pair", "dependent", "orthogonal"][i % 3]))
-        tasks.append((inst, [("min_error", "primal", "cvxopt"), ("min_error", "dual", "cvxopt"), ("unambiguous", "primal", "cvxopt"), ("unambiguous", "dual", "cvxopt")]))
+        tasks.append((inst, [("min_error", "primal", "cvxopt", cform()), ("min_error", "dual", "cvxopt", cform()), ("unambiguous", "primal", "cvxopt", cform()),
+                             ("unambiguous", "dual", "cvxopt", cform())]))
+    # zero-prior stream: occurring states mutually orthogonal + overlapping states of prior 0 / 2^-33 / 1e-10 (value 1, is_distinguishable True)
+    for i in range(24 if quick else 160):
+        inst = vary_ensemble(prs, gen_instance(rng, quick, family="orth+null"), kinds=())
+        tasks.append((inst, [("min_error", "primal", "cvxopt", cform()), ("min_error", "dual", "cvxopt", cform())]))
     run_pool(ctx, work, tasks)
     inv = []
     for i in range(24 if quick else 160):
@@ -1205,7 +1360,34 @@ def run(ctx, model_ok=True):
             st = "min_error"     # the Gram-form programs are modelled for 1-D / column vector arguments only
         pd = [None, "primal", "dual"][int(rng.integers(3))]
         pr = None if rng.integers(2) else qgen.dyadic_probs(rng, k_)
-        front.append((arrs, pr, st, pd))
+        # call form (from the call-form stream): the first n_pos options by position (omitted ones filled with a value), the others by keyword when drawn;
+        # one call in 16 is ill-formed (an option twice, or a fourth positional value): TypeError
+        n_pos = [0, 0, 0, 1, 1, 2, 3, 3][int(cfs.integers(8))]
+        vals = {"strategy": st, "solver": [None, None, "cvxopt", "scs", "mosek"][int(cfs.integers(5))], "primal_dual": pd}
+        pos_, kw_ = [], {}
+        for j_, name in enumerate(_OPT_NAMES):
+            if j_ < n_pos:
+                pos_.append(vals[name] if vals[name] is not None else _OPT_DEFAULTS[j_])
+            elif vals[name] is not None:
+                kw_[name] = vals[name]
+        if int(cfs.integers(3)) == 0:
+            kw_ = dict(reversed(list(kw_.items())))
+        if int(cfs.integers(6)) == 0:
+            kw_["abstol"] = 1e-6          # travels on to the solver (**kwargs), takes no part in the dispatch
+        bad = int(cfs.integers(16))
+        if bad == 0 and n_pos >= 1:
+            kw_[_OPT_NAMES[int(cfs.integers(n_pos))]] = pos_[0]
+        elif bad == 1:
+            pos_ = (pos_ + list(_OPT_DEFAULTS[len(pos_):]))[:3] + ["dual"]
+            kw_ = {n: v for n, v in kw_.items() if n not in _OPT_NAMES}
+        front.append((arrs, pr, pos_, kw_))
+    # corpus: the documented positional calls on a pair of qubit vectors
+    pair = [np.array([1.0, 0.0]), np.array([0.6, 0.8j])]
+    for pos_ in (["unambiguous"], ["min_error"], ["unambiguous", "cvxopt"], ["unambiguous", "cvxopt", "primal"], ["min_error", "cvxopt", "primal"], ["min_error", "cvxopt", "dual"],
+                 ["unambiguous", "cvxopt", "dual"]):
+        front.append((pair, [0.5, 0.5], pos_, {}))
+    front.append((pair, None, ["unambiguous"], {"primal_dual": "primal"}))
+    front.append((pair, [0.25, 0.75], ["min_error", "scs"], {"primal_dual": "primal"}))
     run_pool(ctx, work_front, front)
     # ---- is_distinguishable around the solve
     post_vals = [1.0, 1.0 - 1e-9, 1.0 + 1e-9, 1.0 - 9e-6, 1.0 + 9e-6, 1.0 - 1.1e-5, 1.0 + 1.1e-5, 1.0 - 1e-4, 0.999, 0.5, 0.0, 1.5] + [float(1.0 + x) for x in (rng.random(4 if quick else 40) - 0.5) * rng.choice([1e-5, 4e-5, 1e-2, 1.0], size=(4 if quick else 40))]
@@ -1229,7 +1411,10 @@ def replay(ctx, rec):
     if a.get("fn") == "post":
         work_post(([np.eye(a["n"])[:, i % a["n"]] for i in range(a["n"])], a.get("probs"), [a["v"]]), res)
     elif a.get("fn") == "front":
-        work_front(([np.zeros(tuple(sh)) + 1.0 for sh in a["shapes"]], a.get("probs"), a.get("strategy"), a.get("primal_dual")), res)
+        if "pos" in a:
+            work_front(([np.zeros(tuple(sh)) + 1.0 for sh in a["shapes"]], a.get("probs"), list(a["pos"]), dict(a.get("kw") or {})), res)
+        else:
+            work_front(([np.zeros(tuple(sh)) + 1.0 for sh in a["shapes"]], a.get("probs"), a.get("strategy"), a.get("primal_dual")), res)
     elif a.get("fn") == "embedding":
         work_embed((inst, a["seed"]), res)
     elif a.get("fn") == "history":
@@ -1239,5 +1424,5 @@ def replay(ctx, rec):
     elif a.get("fn") == "is_distinguishable":
         work((inst, [("min_error", "dual", "cvxopt")]), res)
     else:
-        work((inst, [(a["strategy"], a["primal_dual"], a["solver"])]), res)
+        work((inst, [(a["strategy"], a["primal_dual"], a["solver"], a.get("call_form", "kw"))]), res)
     fold(ctx, res)
